@@ -447,6 +447,25 @@ func runC10(c *Ctx) {
 				}
 			}
 		}
+		// an abbreviated countersignature is verified from the signature argument alone: with none
+		// handed in, a valid one sitting in the parent's unprotected header (label 12 or 9) is not
+		// picked up in its place
+		if abbreviated {
+			for _, label := range []int64{12, 9} {
+				holder := c10withUnprotectedValue(p.ptr, label, append([]byte{}, sigBytes...))
+				if holder == nil {
+					continue
+				}
+				hp := holder
+				if val {
+					hp = byValue(holder)
+				}
+				mustPass(fmt.Sprintf("the parent also carries it under label %d", label), func() error { return cose.VerifyCountersign0(k.Verifier, hp, ext, sigBytes) })
+				mustFail(fmt.Sprintf("no signature handed in, a valid one stored under label %d of the parent", label), func() error { return cose.VerifyCountersign0(k.Verifier, hp, ext, nil) })
+				mustFail(fmt.Sprintf("empty signature handed in, a valid one stored under label %d of the parent", label), func() error { return cose.VerifyCountersign0(k.Verifier, hp, ext, []byte{}) })
+				rec.Event("abbreviated-not-taken-from-header")
+			}
+		}
 		// replay as a message signature over the same fields
 		switch pt := p.ptr.(type) {
 		case *cose.Sign1Message:
@@ -778,6 +797,11 @@ func c10withUnprotected(ptr any, label int64, cs *cose.Countersignature, asList 
 	if asList {
 		v = []*cose.Countersignature{cs}
 	}
+	return c10withUnprotectedValue(ptr, label, v)
+}
+
+// c10withUnprotectedValue is c10withUnprotected for any header value.
+func c10withUnprotectedValue(ptr any, label int64, v any) any {
 	with := func(h cose.Headers) cose.Headers {
 		out := cloneHeaders(h)
 		if out.Unprotected == nil {
